@@ -55,6 +55,7 @@ SPECS["C01"] = dict(
     rule="TODO",
     jobs=[
         rapid("TestC01Core", 1200, 30000, sq=4, st=16),
+        rapid("TestC01Session", 400, 12000, sq=6, st=16),
     ],
 )
 
@@ -124,6 +125,19 @@ SPECS["C12"] = dict(
     rule="TODO",
     jobs=[
         rapid("TestC12Core", 800, 25000, sq=4, st=16),
+    ],
+)
+
+SPECS["C09"] = dict(
+    title="datagrams follow the documented frame layout; nonces never repeat",
+    level="exploration",
+    technique="independent wire decoder (std-lib CFB/CRC32/GCM, own RS re-encode, own segment parser) observing every datagram of rapid-generated session histories",
+    level_text="TODO",
+    level_note="TODO",
+    design_ref="5/C09",
+    rule="TODO",
+    jobs=[
+        rapid("TestC09Session", 350, 10000, sq=6, st=16),
     ],
 )
 
